@@ -61,6 +61,15 @@ AMPL = [
     ("find-plain", 'return string.find(string.rep("x", N % 5000000 + 10), "y", 1, true)'),
     ("pack-align", 'return #string.pack("!16 i16", N)'),
     ("sub-big", 'return #string.sub(string.rep("x", 1000), 1, N)'),
+    ("gsub-capture-repeat", 'return #string.gsub(string.rep("x", 1000), ".+", string.rep("%0", N // 1000 + 1))'),
+    ("gsub-capture1-repeat", 'return #string.gsub(string.rep("ab", 500), "(a)(b)", string.rep("%2%1", N // 1000 + 1))'),
+    ("gsub-table-repl", 'local big = string.rep("z", N % 5000000 + 10) return #string.gsub(string.rep("x", 200), ".", {x = big})'),
+    ("gsub-func-repl", 'local big = string.rep("z", N % 5000000 + 10) return #string.gsub(string.rep("x", 200), ".", function() return big end)'),
+    ("format-s-repeat", 'local s = string.rep("x", 1000) return #string.format(string.rep("%s", N % 20000 + 1), table.unpack((function() local t = {} for i = 1, N % 20000 + 1 do t[i] = s end return t end)()))'),
+    ("concat-repeat-ref", 'local s = string.rep("x", 10000) local t = {} for i = 1, N % 100000 + 1 do t[i] = s end return #table.concat(t)'),
+    ("rep-sep-big", 'return #string.rep("", N % 10000000 + 2, string.rep("s", 100))'),
+    ("upper-big", 'return #string.upper(string.rep("x", N % 50000000 + 1))'),
+    ("reverse-big", 'return #string.reverse(string.rep("x", N % 50000000 + 1))'),
 ]
 
 
@@ -203,7 +212,7 @@ def program_level(rep, prop, tier, resource, drv, light=False):
     Ns = (10000, 10000000, 1 << 31, 1 << 40) if tier == "quick" else (1000, 10000, 1000000, 10000000, 1 << 31, (1 << 31) + 1, 1 << 40, (1 << 62))
     for name, body in ([] if light else AMPL):
         for N in Ns:
-            src = "local N = %d\nlocal function f() %s end\nlocal r = table.pack(pcall(f))\nemit('done', r[1])" % (N, body)
+            src = "local N = %d\nlocal function f() %s end\nlocal r = table.pack(pcall(f))\nemit('done', r[1], math.type(r[2]) == 'integer' and r[2] or -1)" % (N, body)
             c = {"id": len(acases), "src": src, "timeout": 20000, "alloc": True}
             if resource == "cpu":
                 c.update(cpu=200000, mem=BIG)
@@ -229,6 +238,9 @@ def program_level(rep, prop, tier, resource, drv, light=False):
             bad = "used %d >= limit %d" % (used, lim)
         elif o.get("wall_ms", 0) > 8000:
             bad = "slow: %d ms of work under a limit of %d units" % (o.get("wall_ms", 0), lim)
+        elif resource == "mem" and o.get("status") in ("done", "error") and o["events"] and o["events"][-1][1] is True \
+                and int((o["events"][-1][2] or {}).get("i", "-1")) > lim:
+            bad = "built: a value of %s bytes was built and returned inside a context whose memory limit is %d" % (o["events"][-1][2].get("i"), lim)
         elif resource == "mem" and o.get("alloc_bytes", 0) > 64 * lim + (64 << 20):
             bad = "heap: %d bytes allocated under a memory limit of %d" % (o.get("alloc_bytes", 0), lim)
         if bad:
